@@ -17,6 +17,7 @@ Line-protocol driver for the C20 model (`lake build c20drv`). All numbers are de
   univ <addrs> <slots> <classhashes>                 -> ok          (comma lists; reads are answered over this universe)
   base <n> <table>                                   -> ok          (reader returned by StateAtBlockNumber(n))
   unbase <n>                                         -> ok          (StateAtBlockNumber(n) fails from now on)
+  reader <height> <cached|->                         -> <view as snap> | fallback <n>   (Synchronizer.PreConfirmedChain)
   validate <B|D|N> <ntx> <malformation>              -> <valid|invalid> <ok:<n>|adapterr|panics>   (Envelope.Validate; the adapter on the same envelope)
   state <b> <block>  (view SnapshotForBlock(b), PreConfirmedStateAt(block))      -> notfound | nobase | <reads>
   statebi <b> <block> <index>                        -> notfound | broken | oob | nobase | <reads>
@@ -292,6 +293,13 @@ def step (s : DState) (line : String) : DState × String :=
         | .panics => "panics"
       (s, s!"{v} {a}")
     | _, _ => (s, "bad-op")
+  | ["reader", height, cached] =>
+    -- Synchronizer.PreConfirmedChain in the state (height, cached header number or `-`, storage)
+    match nat? height with
+    | some ht =>
+      let v := readerView ht (nat? cached) s.store {}
+      (s, if (snapshotFor s.store (ht + 1)).length > 0 then showView v else s!"fallback {ht + 1}")
+    | none => (s, "bad-op")
   | ["unbase", n] =>
     match nat? n with
     | some n => ({ s with bases := s.bases.filter (fun kv => kv.1 != n) }, "ok")
